@@ -67,6 +67,24 @@ def avail_ok(items):
     return True
 
 
+def gen_shaped(rng):
+    """every cut sits inside nested -r groups inside a -g/-v scope (or inside a top-level -r around the scope), the
+    pattern often matches no line: what decides 'was a field asked for' has to look through the repeats"""
+    def nest(body):
+        for _ in range(rng.randint(1, 3)):
+            body = body + [("rep", rng.random() < 0.3, str(rng.randint(1, 1 if len(body) < 2 else 2)), str(rng.randint(1, 2)))]
+        return body
+    cut = lambda: rng.choice([("cut", False, rng.choice(L.CUTS)), ("ncut", False, rng.choice(["a", "key"]), rng.choice(L.CUTS))])
+    pat = rng.choice(["qqq", "qqq", "z", "^$", "foo", "o"])
+    th = nest([cut()] + ([("move", False, rng.choice(L.MOVES))] if rng.random() < 0.5 else []))
+    el = nest([cut()]) if rng.random() < 0.3 else None
+    items = [("move", False, rng.choice(L.MOVES + L.EDITS))] if rng.random() < 0.5 else []
+    items.append(("glob", rng.random() < 0.3, rng.choice(["g", "g", "v"]), pat, th, el))
+    if rng.random() < 0.4:
+        items.append(("rep", False, "1", str(rng.randint(1, 2))))
+    return items
+
+
 def run(chk, binary):
     rng = chk.rng
     thorough = chk.tier == "thorough"
@@ -77,7 +95,7 @@ def run(chk, binary):
 
     # ---- correspondence: Opts::parse vs model on the Cmd tree ----
     # main() treats a single argument as a vic script: keep to >= 2 arguments (Opts::parse front end)
-    items_list = [it for it in (L.gen_items(rng) for _ in range(n_struct)) if len(L.render(it)) >= 2]
+    items_list = [it for it in ((gen_shaped(rng) if k % 7 == 3 else L.gen_items(rng)) for k in range(n_struct)) if len(L.render(it)) >= 2]
     argvs = [L.render(it) for it in items_list]
     mal = [m for m in (malform(rng, rng.choice(argvs)) for _ in range(n_mal)) if len(m) >= 2]
     all_argv = argvs + mal
